@@ -451,7 +451,7 @@ PROPERTIES = {
     "C07": dict(jobs=c07, title="ecs_iter_destroy! visits once, destroys exactly the flagged ones"),
     "C08": dict(e2=True, jobs=c08, title="No handle is ever issued twice"),
     "C09": dict(jobs=c09, title="A direct handle never designates another entity and dies with any removal"),
-    "C10": dict(jobs=c10, title="A panic leaves the world consistent"),
+    "C10": dict(e2=True, jobs=c10, title="A panic leaves the world consistent"),
     "C11": dict(jobs=c11, title="Runtime-borrowed access panics instead of aliasing"),
     "C12": dict(e2=True, jobs=c12, title="len and capacity are exact"),
     "C13": dict(jobs=c13, title="A cloned world is identical and independent"),
